@@ -314,6 +314,7 @@ impl<K, V, A: Allocator> CaoHashMap<K, V, A> {
 
             let result = std::ptr::read(self.values.as_ptr().add(i));
             self.hashes_mut()[i] = 0;
+            self.count -= 1;
 
             // if the consecutive buckets are not empty, move them back, so lookups dont fail
             // and they aren't in their optimal position
